@@ -9,6 +9,8 @@ Ops
   `other=<n>` (a rule for another resource, so that an otherwise identical list is a real reload) is ignored here.
 * `loadres (<rule>)*` — the same list through `flow.LoadRulesOfResource(res, …)` (empty list = clear the resource); same rebuild code, same model
 * `clear` / `clearres` — `flow.ClearRules()` / `flow.ClearRulesOfResource(res)`: no rule in force (as `load` with an empty list)
+* `onsleep <load…|loadres…|clear|clearres>` — arms that (re)load: it is performed during the next sleep the slot asks for (the sleeping
+  request goes on over the controllers it started with: `Throttle.chainReload`); a rule token `rj[:n]` is a never-blocking Reject rule
 * `clock <ns>`                                   — virtual time
 * `req <batch>`   `=> (L | S<ns>)* (pass|block)` — one request through all rules (`Throttle.chain`): `L` per checker that reached
   its timestamp (`th.load` hook), `S<ns>` per sleep, then the verdict; the clock advances by the sleeps
@@ -63,7 +65,9 @@ structure St where
   now : Option Int := none
   decls : Array (Int × Nat) := #[]      -- declared workers: (clock, batch)
   taint : Option String := none         -- oracle: a known-finding region entered earlier and not yet left
-  curList : List (Nat × Nat × Nat) := []  -- the rule manager's cache of what was loaded last for the resource (skip test)
+  curList : List String := []           -- the rule manager's cache of what was loaded last for the resource (skip test)
+  next : Nat := 0                       -- first unused controller identity
+  armed : Option (List String) := none  -- a (re)load that the next sleep of a request will be used for
   curOther : String := ""               -- … and for the other resource
 
 /-- the float part of `DoCheck` (same binary64 operations as the Go code) -/
@@ -206,14 +210,33 @@ def recon (pass : Bool) : Int → List Req → List Ev → Option (List (Int × 
       | _ => some [(cur, some .block)]
   | _, .norm _ :: _, _ => none
 
+/-- `rj` / `rj:<n>` is a Reject rule of the same resource with a threshold that is never reached (1e18 + n): it takes a place in
+    the controller list of the code, never blocks, never sleeps, and is neither reused for nor confused with a throttling rule
+    (`isEqualsTo` compares the control behaviour; a Direct+Throttling rule shares no statistics) — the model leaves it out. -/
+def isRj (t : String) : Bool := t = "rj" || t.startsWith "rj:"
+
 def parseRules? : List String → Option (List RP)
   | [] => some []
-  | tb :: si :: mq :: rest =>
-    match parseFbits? tb, parseHex? (tb.drop 2).toString, si.toNat?, mq.toNat?, parseRules? rest with
-    | some T, some bits, some si, some mq, some rs =>
-      if T.isNaN || T < 0.0 || si ≥ 2 ^ 32 || mq ≥ 2 ^ 32 then none else some ({ T := T, tbits := bits, statMs := si, mq := mq } :: rs)
-    | _, _, _, _, _ => none
-  | _ => none
+  | tb :: rest =>
+    if isRj tb then parseRules? rest else
+    match rest with
+    | si :: mq :: rest =>
+      match parseFbits? tb, parseHex? (tb.drop 2).toString, si.toNat?, mq.toNat?, parseRules? rest with
+      | some T, some bits, some si, some mq, some rs =>
+        if T.isNaN || T < 0.0 || si ≥ 2 ^ 32 || mq ≥ 2 ^ 32 then none else some ({ T := T, tbits := bits, statMs := si, mq := mq } :: rs)
+      | _, _, _, _, _ => none
+    | _ => none
+
+/-- what `reflect.DeepEqual` compares when the rule manager decides whether a load is "the same as the current rules" -/
+def cacheKey : List String → List String
+  | [] => []
+  | tb :: rest =>
+    if isRj tb then tb :: cacheKey rest else
+    match rest with
+    | si :: mq :: rest =>
+      let z := match parseFbits? tb with | some T => T == 0.0 | none => false      -- -0 == +0
+      s!"{if z then "f:0000000000000000" else tb}/{si}/{mq}" :: cacheKey rest
+    | _ => rest
 
 /-- the oracle's records after a (re)load: a rule that stays identical keeps its record (first fit, in order); any other
     rule starts with the spacing record of a fresh checker and, for rejections, the latest pass time seen so far -/
@@ -235,24 +258,58 @@ def worst (vs : List String) : String :=
     | some v => v
     | none => if vs.contains "?" then "?" else "ok"
 
+/-- what a `load` / `loadres` / `clear` / `clearres` does to the rule manager: `none` = malformed; the rules to rebuild the
+    resource's controllers from (`none` = the load is skipped as identical to the cache), the new cache -/
+def loadPlan (s : St) : List String → Option (Option (List RP) × List String × String)
+  | ["clear"] => some (some [], [], "")
+  | ["clearres"] => some (some [], [], s.curOther)
+  | op :: rest =>
+    if op = "load" || op = "loadres" then
+      let (rest, other) := match rest.getLast? with
+        | some t => if t.startsWith "other=" then (rest.dropLast, t) else (rest, "")
+        | none => (rest, "")
+      match parseRules? rest with
+      | some rules =>
+        if rules.length > 4 || rest.length > 16 then none else
+        let key := cacheKey rest
+        let skip := if op = "load" then s.curList == key && s.curOther == other else !rest.isEmpty && s.curList == key
+        some (if skip then none else some rules, key, if op = "load" then other else s.curOther)
+      | none => none
+    else none
+  | [] => none
+
+/-- the sequential effect of a load (both sides of the rebuild: the model's controllers and the oracle's records) -/
+def applyLoad (s : St) (ts : List String) : Option St :=
+  (loadPlan s ts).map fun (rules, key, other) =>
+    match rules with
+    | none => { s with loaded := true }
+    | some rules =>
+      let hi := s.orc.foldl (fun a o => max a o.prevHi) 0
+      { s with loaded := true, ctls := reload ruleEq s.next s.ctls rules, next := s.next + rules.length,
+               orc := orcReload s.orc hi rules, curList := key, curOther := other }
+
 def stepRest (oracle : Bool) (s : St) (ts : List String) (line : String) : St × Option String :=
   match ts with
-  | ["clear"] =>        -- flow.ClearRules(): no rule in force; the next load builds fresh checkers
-    if !s.decls.isEmpty then (s, some "bad-op") else
-    ({ s with loaded := true, ctls := reload ruleEq s.ctls [], orc := [], curList := [], curOther := "" }, none)
-  | ["clearres"] =>     -- flow.ClearRulesOfResource(res): the same for this resource
-    if !s.decls.isEmpty then (s, some "bad-op") else
-    ({ s with loaded := true, ctls := reload ruleEq s.ctls [], orc := [], curList := [] }, none)
   | ["req", b] =>
     match b.toNat?, s.now with
     | some b, some now =>
       if !s.loaded || b ≥ 2 ^ 32 || !s.decls.isEmpty then (s, some "bad-op") else
       let classes := s.ctls.map fun c => classify c.rule.T c.rule.statNs b
-      let (lasts, visited) := chain now ((s.ctls.zip classes).map fun (c, q) => (c.rule.maxQ, c.last, q))
-      let ctls' := (s.ctls.zip lasts).map fun (c, l) => { c with last := l }
-      let slept := visited.foldl (fun a r => match r with | .wait w => a + w | _ => a) 0
+      -- a reload armed with `onsleep` happens during the first sleep of this request (if it sleeps at all)
+      let plan := s.armed.bind (loadPlan s)
+      let fireRules : Option (List RP) := plan.bind (·.1)
+      let (ctls', visited, fired) := chainReload ruleEq s.next now s.ctls (fun r => (r.maxQ, classify r.T r.statNs b)) fireRules
+      let slept : Int := visited.foldl (fun a r => match r with | .wait w => a + w | _ => a) 0
+      -- the cache / identity bookkeeping of a load that was performed (or skipped) during the sleep
+      let after := fun (s1 : St) (didSleep : Bool) =>
+        if !didSleep || s.armed.isNone then s1 else
+        match plan with
+        | some (some rules, key, other) =>
+          let hi := s1.orc.foldl (fun a o => max a o.prevHi) 0
+          { s1 with armed := none, next := s.next + rules.length, orc := orcReload s1.orc hi rules, curList := key, curOther := other }
+        | _ => { s1 with armed := none }
       if !oracle then
-        ({ s with ctls := ctls', now := some (now + slept) }, some (showEvents classes visited))
+        (after { s with ctls := ctls', now := some (now + slept) } (fired || (slept > 0 && s.armed.isSome)), some (showEvents classes visited))
       else
         match (resPart line).bind parseEvents? with
         | none => (s, some "bad unreadable-result")
@@ -261,7 +318,7 @@ def stepRest (oracle : Bool) (s : St) (ts : List String) (line : String) : St ×
           let oclasses := s.orc.map fun o => classify o.rp.T o.rp.statNs b
           let obsSlept := evs.foldl (fun a e => match e with | .S w => a + w | _ => a) 0
           match recon pass now oclasses evs with
-          | none => ({ s with ctls := ctls', now := some (now + obsSlept) }, some "bad walk-shape")
+          | none => (after { s with ctls := ctls', now := some (now + obsSlept) } (obsSlept > 0), some "bad walk-shape")
           | some per =>
             -- judge the visited rules, update their records; the rules after a rejection were not asked
             let judged := (s.orc.zip (per.map some ++ List.replicate (s.orc.length - per.length) none)).map fun (o, x) =>
@@ -278,12 +335,12 @@ def stepRest (oracle : Bool) (s : St) (ts : List String) (line : String) : St ×
                   ({ o with prev := max o.prev p, prevHi := max o.prev p }, v)
             let orc' := judged.map (·.1)
             let taint' := if ctls'.map (·.last) = orc'.map (·.prev) then none else s.taint
-            ({ s with ctls := ctls', orc := orc', taint := taint', now := some (now + obsSlept) }, some (worst (judged.map (·.2))))
+            (after { s with ctls := ctls', orc := orc', taint := taint', now := some (now + obsSlept) } (obsSlept > 0), some (worst (judged.map (·.2))))
     | _, _ => (s, some "bad-op")
   | ["thread", tid, clk, "req", b] =>
     match tid.toNat?, clk.toNat?, b.toNat? with
     | some tid, some clk, some b =>
-      if !s.loaded || s.ctls.length ≠ 1 || tid ≠ s.decls.size || b ≥ 2 ^ 32 || tid ≥ 8 then (s, some "bad-op")
+      if !s.loaded || s.ctls.length ≠ 1 || tid ≠ s.decls.size || b ≥ 2 ^ 32 || tid ≥ 8 || s.armed.isSome then (s, some "bad-op")
       else ({ s with decls := s.decls.push ((clk : Int), b) }, none)
     | _, _, _ => (s, some "bad-op")
   | "sched" :: es =>
@@ -346,23 +403,18 @@ def step (oracle : Bool) (s : St) (ts : List String) (line : String) : St × Opt
     match t.toNat? with
     | some t => if s.loaded then ({ s with now := some (t : Int) }, none) else (s, some "bad-op")
     | none => (s, some "bad-op")
-  | op :: rest =>
-    if op = "load" || op = "loadres" then
-      -- `load` = flow.LoadRules (whole rule set; `other=<n>` = the rule of another resource), `loadres` = flow.LoadRulesOfResource.
-      -- Both skip a list that is DeepEqual to the cached one, and both rebuild with buildResourceTrafficShapingController
-      -- on the resource's old controllers = `Throttle.reload`.
-      let (rest, other) := match rest.getLast? with
-        | some t => if t.startsWith "other=" then (rest.dropLast, t) else (rest, "")
-        | none => (rest, "")
-      match parseRules? rest with
-      | some rules =>
-        if rules.length > 4 || !s.decls.isEmpty then (s, some "bad-op") else
-        let key := rules.map fun r => ((if r.T == 0.0 then 0 else r.tbits), r.statMs, r.mq)     -- what reflect.DeepEqual compares
-        let skip := if op = "load" then s.curList == key && s.curOther == other else !rules.isEmpty && s.curList == key
-        if skip then ({ s with loaded := true }, none) else
-        let hi := s.orc.foldl (fun a o => max a o.prevHi) 0
-        ({ s with loaded := true, ctls := reload ruleEq s.ctls rules, orc := orcReload s.orc hi rules, curList := key,
-                  curOther := if op = "load" then other else s.curOther }, none)
+  | "onsleep" :: op =>
+    -- arm: the next sleep the slot asks for is used to perform `op` (a load / loadres / clear / clearres)
+    if !s.loaded || !s.decls.isEmpty || s.armed.isSome || (loadPlan s op).isNone then (s, some "bad-op")
+    else ({ s with armed := some op }, none)
+  | op :: _ =>
+    -- `load` = flow.LoadRules (whole rule set; `other=<n>` = the rule of another resource), `loadres` = flow.LoadRulesOfResource,
+    -- `clear` / `clearres` = ClearRules / ClearRulesOfResource.  All skip a list that is DeepEqual to the cached one, and all
+    -- rebuild with buildResourceTrafficShapingController on the resource's old controllers = `Throttle.reload`.
+    if op = "load" || op = "loadres" || op = "clear" || op = "clearres" then
+      if !s.decls.isEmpty || s.armed.isSome then (s, some "bad-op") else
+      match applyLoad s ts with
+      | some s' => (s', none)
       | none => (s, some "bad-op")
     else stepRest oracle s ts line
   | [] => (s, some "bad-op")
